@@ -9,6 +9,7 @@ import (
 	"crypto/tls"
 	"encoding/json"
 	"fmt"
+	"io"
 	"net"
 	"net/http"
 	"net/url"
@@ -259,13 +260,55 @@ type obsJSON struct {
 	Inner  int         `json:"inner_status,omitempty"`
 	Err    string      `json:"err,omitempty"`
 	OK     bool        `json:"ok"`
+	Reopened bool      `json:"reopened,omitempty"`
 	Pac    []pacCall   `json:"pac_calls,omitempty"`
 	Match  []string    `json:"matcher_args,omitempty"`
 }
 
-// request drives one request through the real proxy: kind 0 = plain http (absolute-form GET), 1 = CONNECT then an
-// inner origin-form GET through the tunnel, 2 = https target in absolute form, 3 = request inside a MITM'd tunnel.
-func (r *rig) request(kind int, scheme, urlhost string) obsJSON {
+// A session is a client's view: several requests, each on its own connection to the proxy or all on ONE
+// connection (keep-alive; inside one MITM'd TLS session for kind 3).  Request kinds: 0 = plain http
+// (absolute-form GET), 1 = CONNECT then an inner origin-form GET through the tunnel (ends a connection),
+// 2 = https target in absolute form, 3 = request inside a MITM'd tunnel (CONNECT + TLS with the proxy once).
+type session struct {
+	r        *rig
+	sameConn bool
+	c        net.Conn
+	rw       net.Conn // c, or the TLS session with the MITM'ing proxy
+	br       *bufio.Reader
+	inMITM   bool
+}
+
+func (s *session) close() {
+	if s.c != nil {
+		s.c.Close()
+		s.c, s.rw, s.br, s.inMITM = nil, nil, nil, false
+	}
+}
+
+func (s *session) open() error {
+	c, err := net.DialTimeout("tcp", s.r.addr, 5*time.Second)
+	if err != nil {
+		return err
+	}
+	c.SetDeadline(time.Now().Add(20 * time.Second))
+	s.c, s.rw, s.br, s.inMITM = c, c, bufio.NewReader(c), false
+	return nil
+}
+
+func readFull(br *bufio.Reader, req *http.Request) (*http.Response, error) {
+	res, err := http.ReadResponse(br, req)
+	if err != nil {
+		return nil, err
+	}
+	if req == nil || req.Method != http.MethodConnect || res.StatusCode/100 != 2 {
+		io.Copy(io.Discard, res.Body)
+		res.Body.Close()
+	}
+	return res, nil
+}
+
+func (s *session) request(kind int, scheme, urlhost string) obsJSON {
+	r := s.r
 	r.w.reset()
 	r.w.failFirst = r.desc.FailFirst
 	if r.pac != nil {
@@ -275,56 +318,88 @@ func (r *rig) request(kind int, scheme, urlhost string) obsJSON {
 		r.direct.take()
 	}
 	var o obsJSON
-	c, err := net.DialTimeout("tcp", r.addr, 5*time.Second)
-	if err != nil {
-		o.Err = "dial proxy: " + err.Error()
-		return o
+	connHdr := "Connection: close\r\n"
+	if s.sameConn {
+		connHdr = ""
 	}
-	defer c.Close()
-	c.SetDeadline(time.Now().Add(15 * time.Second))
-	br := bufio.NewReader(c)
-	switch kind {
-	case 0, 2: // absolute-form GET (http or https target)
-		fmt.Fprintf(c, "GET %s://%s/p HTTP/1.1\r\nHost: %s\r\nConnection: close\r\n\r\n", scheme, urlhost, urlhost)
-		res, err := http.ReadResponse(br, nil)
-		if err != nil {
-			o.Err = "read response: " + err.Error()
-		} else {
-			o.Status = res.StatusCode
-			res.Body.Close()
-			o.OK = res.StatusCode/100 == 2
-		}
-	default: // 1: CONNECT + inner plain request through the tunnel; 3: CONNECT, TLS with the MITM'ing proxy, inner request
-		fmt.Fprintf(c, "CONNECT %s HTTP/1.1\r\nHost: %s\r\n\r\n", urlhost, urlhost)
-		res, err := http.ReadResponse(br, &http.Request{Method: http.MethodConnect})
-		if err != nil {
-			o.Err = "read CONNECT response: " + err.Error()
-			break
-		}
-		o.Status = res.StatusCode
-		if res.StatusCode/100 != 2 {
-			res.Body.Close()
-			break
-		}
-		var rw net.Conn = c
-		if kind == 3 {
-			tc := tls.Client(&bufConn{Conn: c, r: br}, &tls.Config{InsecureSkipVerify: true}) //nolint:gosec // scripted client
-			if err := tc.Handshake(); err != nil {
-				o.Err = "tls with mitm proxy: " + err.Error()
-				break
+	for attempt := 0; attempt < 2; attempt++ {
+		if !s.sameConn || s.c == nil || (kind == 3) != s.inMITM {
+			s.close()
+			if err := s.open(); err != nil {
+				o.Err = "dial proxy: " + err.Error()
+				return o
 			}
-			rw = tc
-			br = bufio.NewReader(tc)
 		}
-		fmt.Fprintf(rw, "GET /inner HTTP/1.1\r\nHost: %s\r\nConnection: close\r\n\r\n", urlhost)
-		res2, err := http.ReadResponse(br, nil)
-		if err != nil {
-			o.Err = "read inner response: " + err.Error()
-		} else {
-			o.Inner = res2.StatusCode
-			res2.Body.Close()
-			o.OK = res2.StatusCode/100 == 2
+		fresh := s.br.Buffered() == 0 // nothing pending from an earlier exchange
+		var err error
+		switch kind {
+		case 0, 2: // absolute-form GET (http or https target)
+			fmt.Fprintf(s.rw, "GET %s://%s/p HTTP/1.1\r\nHost: %s\r\n%s\r\n", scheme, urlhost, urlhost, connHdr)
+			var res *http.Response
+			if res, err = readFull(s.br, nil); err == nil {
+				o.Status = res.StatusCode
+				o.OK = res.StatusCode/100 == 2
+				if res.Close {
+					defer s.close()
+				}
+			}
+		default: // 1: CONNECT + inner plain request; 3: CONNECT + TLS with the MITM'ing proxy (once), inner request
+			if !s.inMITM {
+				fmt.Fprintf(s.rw, "CONNECT %s HTTP/1.1\r\nHost: %s\r\n\r\n", urlhost, urlhost)
+				var res *http.Response
+				if res, err = readFull(s.br, &http.Request{Method: http.MethodConnect}); err != nil {
+					break
+				}
+				o.Status = res.StatusCode
+				if res.StatusCode/100 != 2 {
+					defer s.close()
+					break
+				}
+				if kind == 3 {
+					tc := tls.Client(&bufConn{Conn: s.c, r: s.br}, &tls.Config{InsecureSkipVerify: true}) //nolint:gosec // scripted client
+					if err = tc.Handshake(); err != nil {
+						o.Err = "tls with mitm proxy: " + err.Error()
+						defer s.close()
+						err = nil
+						break
+					}
+					s.rw, s.br, s.inMITM = tc, bufio.NewReader(tc), true
+				}
+			} else {
+				o.Status = 200
+			}
+			hdr := connHdr
+			if kind == 1 {
+				hdr = "Connection: close\r\n" // the tunnel carries one inner exchange
+			}
+			fmt.Fprintf(s.rw, "GET /inner HTTP/1.1\r\nHost: %s\r\n%s\r\n", urlhost, hdr)
+			var res2 *http.Response
+			if res2, err = readFull(s.br, nil); err == nil {
+				o.Inner = res2.StatusCode
+				o.OK = res2.StatusCode/100 == 2
+				if res2.Close || kind == 1 {
+					defer s.close()
+				}
+			} else if kind == 1 || o.Status/100 == 2 && !s.inMITM {
+				o.Err, err = "read inner response: "+err.Error(), nil
+				defer s.close()
+			}
 		}
+		if err == nil {
+			break
+		}
+		// the proxy may have closed an idle kept-alive connection: retry once on a new one if nothing happened yet
+		dials, recv := r.w.snapshot()
+		s.close()
+		if s.sameConn && attempt == 0 && fresh && len(dials) == 0 && len(recv) == 0 {
+			o = obsJSON{Reopened: true}
+			continue
+		}
+		o.Err = "exchange: " + err.Error()
+		break
+	}
+	if !s.sameConn {
+		s.close()
 	}
 	r.rt.CloseIdleConnections()
 	o.Dials, o.Recv = r.w.snapshot()
